@@ -45,6 +45,9 @@ def history_stream(tier, rng, removal, classes=(0, 1), exhaustive_len=None, n_ra
             yield hist_case(d, removal, h, src="exh1")
         for h in gen.exhaustive_multi_pair(2 if tier == "quick" else 2, tmax=2 if tier == "quick" else 3):
             yield hist_case(d, removal, h, src="exhN")
+        if d == 1:
+            for h in gen.exhaustive_reciprocal(3, tmax=1 if tier == "quick" else 2):
+                yield hist_case(d, removal, h, src="exhR")
     n = n_random if n_random is not None else (3000 if tier == "quick" else 40000)
     for i in range(n):
         d = rng.choice(classes)
@@ -215,6 +218,7 @@ class C05:
 
 class C07:
     id = "C07"
+    no_warm = True      # its lines already carry a dump after every operation
 
     @staticmethod
     def cases(tier, rng):
@@ -286,7 +290,11 @@ class C08:
 
     @staticmethod
     def cases(tier, rng):
-        return history_stream(tier, rng, False)
+        for c in history_stream(tier, rng, False):
+            lo, hi = gen.window(c["ops"], 2)
+            ts = gen.times_of(c["ops"]) or [0]
+            c["qts"] = [rng.randint(lo, hi), rng.choice(ts) + rng.choice([-1, 0, 1])]
+            yield c
 
     @staticmethod
     def lines(case):
@@ -294,6 +302,7 @@ class C08:
         lo, hi = gen.window(case["ops"], 2)
         L += [gen.op_line(0, op) for op in case["ops"]]
         L += ["dump 0", "pres 0 %d %d" % (lo, hi)]
+        L += ["q2 0 %d" % t for t in case.get("qts", [])]
         return L
 
     @staticmethod
@@ -302,7 +311,19 @@ class C08:
         n = len(case["ops"])
         if oracles.is_err(outs[1 + n]) or oracles.is_err(outs[2 + n]):
             return [F("C08.raised", got=[outs[1 + n] if oracles.is_err(outs[1 + n]) else None, outs[2 + n] if oracles.is_err(outs[2 + n]) else None])]
-        return oracles.c08(bool(case["cls"]), case["ops"], outs[1:1 + n], outs[2 + n], outs[1 + n], lo, hi)
+        fails = oracles.c08(bool(case["cls"]), case["ops"], outs[1:1 + n], outs[2 + n], outs[1 + n], lo, hi)
+        # the snapshot queries of C02 follow the accumulative presence
+        dump, pres = outs[1 + n], outs[2 + n]
+        nodes = {x for x, _ in dump["nodes"]}
+        attrs = dict((x, a) for x, a in dump["nodes"])
+        for j, t in enumerate(case.get("qts", [])):
+            q = outs[3 + n + j]
+            if oracles.is_err(q):
+                fails.append(F("C08.query_raised", t=t, got=q)); continue
+            for f in oracles.c02(bool(case["cls"]), q, pres, t, nodes, attrs, None, dump["ids"]):
+                f["clause"] = "C08.query:" + f["clause"]
+                fails.append(f)
+        return fails
 
     @staticmethod
     def nontrivial(case, outs):
